@@ -360,6 +360,87 @@ Theorem raw_pair_obligation_sound : forall specs accs slot id k ra,
     got_at (a_val ar) w = v.
 Proof. intros specs accs slot id k ra H. apply (raw_pair_sound specs accs slot id k ra). exact H. Qed.
 
+(** ** Full images: nothing left to assume about what the decoders report *)
+
+Lemma parse_txt_unfold img : parse_txt img = read_seq parse_layout img.
+Proof. unfold parse_txt. reflexivity. Qed.
+
+(** on an image that holds everything [ParseTXTRegs] reads (0x8f8 bytes) it succeeds and every
+    slot is reported with the little-endian value of its own bytes *)
+Theorem parse_txt_full : forall img, (2296 <= length img)%nat ->
+  snd (parse_txt img) = None /\
+  fst (parse_txt img) = map (fun e => (e_id e, le_at img (e_off e) (e_len e))) parse_layout.
+Proof.
+  intros img H. split; [apply parse_txt_ok_iff, H|].
+  rewrite parse_txt_unfold, read_seq_fst, (fitting_prefix_all _ _ (parse_all_fit img H)). reflexivity.
+Qed.
+
+Lemma parse_incl : incl parse_layout all_tools_slots.
+Proof. unfold all_tools_slots. apply incl_appl, incl_refl. Qed.
+
+Lemma full_image_values img slot soff sn id roff rn :
+  (2296 <= length img)%nat -> In (slot, soff, sn) parse_layout -> In (id, roff, rn) txt_layout ->
+  In (slot, le_at img soff sn) (fst (read_seq parse_layout img)) /\
+  In (id, le_at img roff rn) (fst (read_regs txt_layout img)).
+Proof.
+  intros Hlen Hs Hr. split.
+  - rewrite read_seq_fst, (fitting_prefix_all _ _ (parse_all_fit img Hlen)).
+    apply in_map_iff. exists (slot, soff, sn). split; [reflexivity|exact Hs].
+  - apply read_regs_complete; [exact Hr|].
+    assert (H1056 : (1056 <= length img)%nat) by lia.
+    pose proof (txt_all_fit img H1056 (id, roff, rn) Hr) as Hf.
+    unfold fits in Hf. cbn [e_off e_len fst snd] in Hf. apply Nat.leb_le in Hf. exact Hf.
+Qed.
+
+(** For every image of at least 0x8f8 bytes BOTH decoders report the field, and they report the
+    same value. *)
+Theorem decoders_agree_full : forall specs accs ta ra slot id soff sn roff rn,
+  pair_ok specs accs (ta, ra, slot, id) = true ->
+  In (slot, soff, sn) parse_layout -> In (id, roff, rn) txt_layout ->
+  exists at_ ar, find_accessor ta accs = Some at_ /\ find_accessor ra accs = Some ar /\
+  forall img, (2296 <= length img)%nat -> (forall b, In b img -> b < 256) ->
+    exists v w, In (slot, v) (fst (parse_txt img)) /\ In (id, w) (fst (read_txt img)) /\
+                got_at (a_val at_) v = got_at (a_val ar) w.
+Proof.
+  intros specs accs ta ra slot id soff sn roff rn Hp Hs Hr.
+  destruct (pair_sound _ _ _ _ _ _ Hp) as (at_ & ar & Ha & Har & Hag).
+  exists at_, ar. split; [exact Ha|]. split; [exact Har|].
+  intros img Hlen Hb.
+  destruct (full_image_values img slot soff sn id roff rn Hlen Hs Hr) as [Hv Hw].
+  exists (le_at img soff sn), (le_at img roff rn).
+  split; [rewrite parse_txt_unfold; exact Hv|]. split; [rewrite read_txt_unfold; exact Hw|].
+  apply (Hag parse_layout img _ _ parse_incl Hb Hv). rewrite read_txt_unfold. exact Hw.
+Qed.
+
+Theorem decoders_agree_raw_full : forall specs accs slot id k ra soff sn roff rn,
+  raw_pair_ok specs accs (slot, id, k, ra) = true ->
+  In (slot, soff, sn) parse_layout -> In (id, roff, rn) txt_layout ->
+  exists ar, find_accessor ra accs = Some ar /\
+  forall img, (2296 <= length img)%nat -> (forall b, In b img -> b < 256) ->
+    exists v w, In (slot, v) (fst (parse_txt img)) /\ In (id, w) (fst (read_txt img)) /\
+                got_at (a_val ar) w = v.
+Proof.
+  intros specs accs slot id k ra soff sn roff rn Hp Hs Hr.
+  destruct (raw_pair_sound _ _ _ _ _ _ Hp) as (ar & Har & Hag).
+  exists ar. split; [exact Har|].
+  intros img Hlen Hb.
+  destruct (full_image_values img slot soff sn id roff rn Hlen Hs Hr) as [Hv Hw].
+  exists (le_at img soff sn), (le_at img roff rn).
+  split; [rewrite parse_txt_unfold; exact Hv|]. split; [rewrite read_txt_unfold; exact Hw|].
+  apply (Hag parse_layout img _ _ parse_incl Hb Hv). rewrite read_txt_unfold. exact Hw.
+Qed.
+
+(** the premises are met by the example pair *)
+Example decoders_agree_full_applies :
+  In ("Ests"%string, 8, 1)%nat parse_layout /\ In ("TXT.ESTS"%string, 8, 1)%nat txt_layout /\
+  In ("Did"%string, 274, 2)%nat parse_layout /\ In ("TXT.DIDVID"%string, 272, 8)%nat txt_layout.
+Proof.
+  split; [unfold parse_layout; do 3 right; left; reflexivity|].
+  split; [unfold txt_layout; do 6 right; left; reflexivity|].
+  split; [unfold parse_layout; do 7 right; left; reflexivity|].
+  unfold txt_layout; do 10 right; left; reflexivity.
+Qed.
+
 (** the decoders of pkg/tools are chains over slots of [all_tools_slots] *)
 Lemma tools_decoders_incl : forall which lay flds, tools_decoder which = Some (lay, flds) -> incl lay all_tools_slots.
 Proof.
